@@ -789,6 +789,10 @@ func parseModItem(s string) (ModItem, error) {
 	if s == "*" {
 		return ModItem{Kind: "all"}, nil
 	}
+	if len(fs) == 2 && fs[0] == "allmem" {
+		// "allmem T": the backing arrays of every slice with elements of type T
+		return ModItem{Kind: "every", Name: "", Type: fs[1]}, nil
+	}
 	if len(fs) == 2 && fs[0] == "every" {
 		// "every T.f": field f of any object of struct type T (T may be package-qualified)
 		i := strings.LastIndex(fs[1], ".")
